@@ -6,6 +6,7 @@ import (
 	"crypto/cipher"
 	"fmt"
 	"math/rand/v2"
+	"runtime"
 
 	"golang.org/x/crypto/chacha20"
 	"golang.org/x/crypto/salsa20"
@@ -187,7 +188,7 @@ func c53Concurrent(m *mon.M, ps []string) {
 			for g := 0; g < nG; g++ {
 				if g == 0 || mode == "distinct" {
 					keys = append(keys, mon.Bytes(r, 32))
-					c, err := xts.NewCipher(aes.NewCipher, keys[len(keys)-1])
+					c, err := xts.NewCipher(yieldingAES, keys[len(keys)-1])
 					if err != nil {
 						panic("harness: " + err.Error())
 					}
@@ -303,4 +304,21 @@ func c53Concurrent(m *mon.M, ps []string) {
 	m.Gate("concurrent_distinct_calls:exact", concGoroutines*full*4, "in-place calls on one value per goroutine (AEAD, *chacha20.Cipher, *xts.Cipher) at once")
 	m.Gate("concurrent_shared_calls:forbidden", concGoroutines*full, "inexactly overlapping calls on shared values by 8 goroutines at once")
 	m.Gate("concurrent_calls:shared:gomaxprocs1", concGoroutines*full*4, "calls on shared values in the GOMAXPROCS(1) pass")
+}
+
+// yieldingBlock is the user-supplied block cipher handed to xts.NewCipher in the
+// concurrent streams: it yields in every call, a legal suspension point inside a
+// sector operation, so that goroutines sharing a P (and its sync.Pool shard)
+// interleave mid-operation.
+type yieldingBlock struct{ cipher.Block }
+
+func (y yieldingBlock) Encrypt(dst, src []byte) { runtime.Gosched(); y.Block.Encrypt(dst, src) }
+func (y yieldingBlock) Decrypt(dst, src []byte) { runtime.Gosched(); y.Block.Decrypt(dst, src) }
+
+func yieldingAES(key []byte) (cipher.Block, error) {
+	b, err := aes.NewCipher(key)
+	if err != nil {
+		return nil, err
+	}
+	return yieldingBlock{b}, nil
 }
